@@ -19,6 +19,8 @@ type aggregatedLabels struct {
 	entries []labelEntry
 	without map[string]struct{}
 	by      map[string]struct{}
+	// byActive whether the set is restricted to by, even if by is empty.
+	byActive bool
 }
 
 type labelEntry struct {
@@ -36,22 +38,21 @@ func newAggregatedLabels(set LabelSet, by, without map[string]struct{}) *aggrega
 	})
 
 	return &aggregatedLabels{
-		entries: labels,
-		without: without,
-		by:      by,
+		entries:  labels,
+		without:  without,
+		by:       by,
+		byActive: by != nil,
 	}
 }
 
 // By returns new set of labels containing only given list of labels.
 func (a *aggregatedLabels) By(labels ...logql.Label) logqlmetric.AggregatedLabels {
-	if len(labels) == 0 {
-		return a
-	}
-
+	// An empty list restricts to the empty label set: by () keeps nothing.
 	sub := &aggregatedLabels{
-		entries: a.entries,
-		without: a.without,
-		by:      buildSet(maps.Clone(a.by), labels...),
+		entries:  a.entries,
+		without:  a.without,
+		by:       buildSet(maps.Clone(a.by), labels...),
+		byActive: true,
 	}
 	return sub
 }
@@ -63,9 +64,10 @@ func (a *aggregatedLabels) Without(labels ...logql.Label) logqlmetric.Aggregated
 	}
 
 	sub := &aggregatedLabels{
-		entries: a.entries,
-		without: buildSet(maps.Clone(a.without), labels...),
-		by:      a.by,
+		entries:  a.entries,
+		without:  buildSet(maps.Clone(a.without), labels...),
+		by:       a.by,
+		byActive: a.byActive,
 	}
 	return sub
 }
@@ -179,7 +181,7 @@ func (a *aggregatedLabels) forEach(cb func(k, v string)) {
 		if _, ok := a.without[e.name]; ok {
 			continue
 		}
-		if len(a.by) > 0 {
+		if a.byActive {
 			if _, ok := a.by[e.name]; !ok {
 				continue
 			}
